@@ -260,6 +260,10 @@ func checkHookResults(t *testing.T, col *evid.Collector) {
 		switch {
 		case c.wantErr && ierr == nil && codes["h"] == 0:
 			col.Violation("C20:failing-hook-reported-success:"+c.name, what, replayCase{Kind: "script", Script: c.src})
+		case !c.wantErr && ierr != nil && strings.Contains(ierr.Error(), "context deadline exceeded"):
+			// a terminating script ran into the hook timeout: the worker was
+			// starved of CPU (machine overloaded); no verdict for this case
+			col.Inc("hook_result_cases_starved_no_verdict")
 		case !c.wantErr && ierr != nil:
 			col.Violation("C20:hook-invocation-unexpected-error:"+c.name, what, replayCase{Kind: "script", Script: c.src})
 		case !c.wantErr && c.wantCode != 0 && codes["h"] == 0:
